@@ -895,6 +895,8 @@ def correspondence(ctx, g, reps, max_n):
             h = g.channel(n_ant, 1)[0].reshape(-1).astype(complex)
             if n_ant >= 2 and rng.chance(0.3):
                 h[rng.below(n_ant)] = 0.0
+                if not np.any(h):  # the property needs a non-zero channel
+                    h[0] = 1.0
             x, _ = g.data(rng.choice([1, 2, 5, 8]))
             corr_mrt(ctx, b, h, x, ('mrt', idx), rng.chance(0.5))
             # Alamouti: Nr x 2 (or a 1-D channel of length 2)
@@ -941,11 +943,15 @@ def oracle_cases(ctx, g, reps, max_n, deep=False):
                 Hs = np.array(Hs, dtype=complex)
                 if scheme == 'mrt' and n_ant >= 2 and rng.chance(0.3):
                     Hs.reshape(-1)[rng.below(n_ant)] = 0.0
+                    if not np.any(Hs):  # the property needs a non-zero channel
+                        Hs.reshape(-1)[0] = 1.0
                 case = {'scheme': scheme, 'H': enc(Hs), 'x': enc(x)}
                 run_oracle(ctx, 'roundtrip', case, key=('rt', scheme, idx))
                 run_oracle(ctx, 'energy', case, key=('en', scheme, idx))
                 ctx.branch('oracle:' + scheme)
             H = g.channel(max(n_ant, 2), 2)[0][:n_ant, :]
+            if not np.any(H):  # the property needs a non-zero channel
+                H = H + 1.0
             x, _ = g.data(2 * rng.choice([1, 2, 3, 8]))
             case = {'scheme': 'alamouti', 'H': enc(H), 'x': enc(x)}
             run_oracle(ctx, 'roundtrip', case, key=('rt', 'ala', idx))
